@@ -190,6 +190,7 @@ func checkEmit(c EmitCase) (v ev.Verdict) {
 	}
 	s := sim{state: &core.State{NodeName: c.Node, Bs: match.Bindings(jsongen.CopyMap(c.Bs))}}
 	budget := 150
+	strides := 1500
 	terminated := true
 	var expected [][][]string
 	for _, m := range c.Messages {
@@ -210,6 +211,13 @@ func checkEmit(c EmitCase) (v ev.Verdict) {
 			}
 			if to := ww.To(); to != nil {
 				s.state = to
+			}
+			// (bounded by work, not only by walks: a looping machine
+			// whose bindings grow makes every further stride dearer)
+			strides -= len(ww.Strides)
+			if strides < 0 {
+				terminated = false
+				break
 			}
 			var batch []string
 			ww.DoEmitted(func(x interface{}) error {
